@@ -164,7 +164,7 @@
 (define bag-partition! bag-partition)
 
 (define (bag-copy bag)
-  (make-bag (hash-table-copy (bag-table bag))
+  (make-bag (hash-table-copy (bag-table bag) #t)
             (bag-comparator bag)))
 
 (define (bag->list bag)
@@ -324,7 +324,7 @@
   (bag-increment! bag element (- count)))
 
 (define (bag->set bag)
-  (let ((ht (hash-table-copy (bag-table bag))))
+  (let ((ht (hash-table-copy (bag-table bag) #t)))
     (hash-table-map! (lambda (key count) key) ht)
     (make-set ht (bag-comparator bag))))
 
